@@ -27,7 +27,11 @@ RULE = ("one evaluation = one observed result object (array, 0-d array or quanti
         "buffer of any integer/float/complex width - by keyword, as 1-tuple or positionally; plain, where=-masked, ufunc.outer, "
         "strided or 0-d - gives TWO evaluations, the returned object and the caller's buffer, each owed float dtype of the "
         "buffer's item size and the exact values (masked-out elements: the number held before); a refusal is one evaluation; "
-        "where= without out= judges the addressed elements only; ufunc.at judges the first operand afterwards")
+        "where= without out= judges the addressed elements only; ufunc.at judges the first operand afterwards.  "
+        "Value axis (batches valaxis/<dtype>): one group = one (ufunc, call form, operand position, operand spelling, dtypes, unit "
+        "pair); its control call (ordinary reading 3 in the same spelling) is one evaluation; every special value (zero, one, "
+        "minus-one, dtype max/min) gives one dtype evaluation (floating kind, the dtype of the control, no refusal) and one value "
+        "evaluation; distinct cell = (ufunc, form, position, spelling, value class, dtypes)")
 ASSUMPTIONS = (
     "trusted base: NumPy casting/promotion, Python Fraction arithmetic, vf/ref/defs.py exact unit definitions, "
     "vf/ref/names.py name resolution; the unit *label* of a result is read from str(result.units) and interpreted by the reference",
@@ -97,6 +101,18 @@ ASSUMPTIONS = (
     "ufunc.outer accepts out= by keyword/tuple only (NumPy signature)",
     "true_divide whose dimensionless unit factor (J/erg) is not a normal number of the narrow float holding the quotient is the "
     "factor-outside-float-range mechanism (keyed like the conversion routes), not a plain value failure",
+    "value axis: the dtype of a mixed-unit result is owed as a function of the operands' dtypes, units, spellings and shapes alone. "
+    "NumPy's own promotion is value independent (NEP 50; the workload passes no bare Python scalars), so a dtype that differs "
+    "between a special value (zero, one, minus-one, dtype max/min) and the control (reading 3, everything else identical) is unyt's "
+    "doing: an integer result is keyed <ufunc>/value-axis:int-result, another float width <ufunc>/value-axis:dtype-depends-on-value "
+    "(at most one of the two widths is 'the same item size'), a refusal where the control returns <ufunc>/value-axis:raises; a "
+    "control that itself fails is reported under the ordinary <ufunc>/call key and its group is not judged; values of special "
+    "operands are judged by the ordinary binary oracle and keep the ordinary keys",
+    "value axis, operators: `array < quantity` is dispatched by Python to the reflected method of the subclass first "
+    "(np.greater(quantity, array)), so there the ARRAY is the operand unyt rescales; the reference models the call the interpreter "
+    "really makes (counter valaxis:reflected-comparison-dispatch), arithmetic operators keep their order; ufunc.reduce/accumulate "
+    "take one unit-carrying operand (no mixed units) and are not part of the value axis",
+    "value axis: nextafter and heaviside follow the same unit rule as add but have no exact model here: judged for dtype only",
 )
 MIN_EVALS = 20000
 TIMEOUT = 1500
@@ -570,6 +586,9 @@ def batches(tier, seed):
         b.append((f"equiv/{dt}", ("equiv", dt, tier, seed)))
         b.append((f"binary/{dt}", ("binary", dt, tier, seed)))
         b.append((f"outbuf/{dt}", ("outbuf", dt, tier, seed)))
+    for dt in INTS:
+        # value axis: the batch dtype is the dtype of the operand that holds the special value
+        b.append((f"valaxis/{dt}", ("valaxis", dt, tier, seed)))
     if tier == "thorough":
         # extra derived random streams (the batch id seeds the generator) for the parts with random values
         for k in (1, 2):
@@ -602,6 +621,8 @@ def worker(batch, rec):
             run_binary(unyt, rec, arg, tier, r)
         elif kind == "outbuf":
             run_outforms(unyt, rec, arg, tier, r)
+        elif kind == "valaxis":
+            run_valaxis(unyt, rec, arg, tier, r)
         elif kind == "warn":
             run_warn(unyt, rec, arg, tier, r)
         elif kind == "hist":
@@ -1465,6 +1486,172 @@ def run_outforms(unyt, rec, d0, tier, r):
                 "pass": OUT_PASS, "variants": sorted(set(OUT_VARIANTS))})
 
 
+# ------------------------------------------------------------------ value axis of integer operands
+# Everything above puts ordinary numbers into the operands (the second one is never zero, a scalar operand holds one fixed
+# reading).  The dtype of a mixed-unit result must be a function of the operands' dtypes and units alone, so here the VALUE
+# an integer operand holds becomes a workload dimension of its own (vf/gen/c17_valueaxis.py): value class {zero, one,
+# minus-one, dtype max, dtype min, ...} x operand spelling {quantity, 0-d array, 1-element array, filled n-d arrays, NumPy
+# scalar * Unit, Python int * Unit} x operand position {first, second, both} x every mixed-unit binary ufunc x {function,
+# operator, ufunc.outer}, no out=.  Each group first makes the CONTROL call (the ordinary reading 3 in the same spelling,
+# same dtypes, same units, same shapes); every special value then owes (a) a floating-point (comparisons: bool) result,
+# (b) the very dtype of the control, (c) no refusal where the control returned, (d) the exactly combined values.
+VA_UFS = UF_QUICK + UF_MORE                    # judged for dtype and values (exact model in bin_expected)
+VA_DTYPE_ONLY = ["nextafter", "heaviside"]     # rescaled like add (same unit rule) but without an exact model: dtype only
+VA_OTHER_DT = INTS + FLOATS
+VA_N = 3
+VA_REFLECTED = {"less": "greater", "greater": "less", "less_equal": "greater_equal", "greater_equal": "less_equal", "equal": "equal",
+                "not_equal": "not_equal"}
+
+
+def va_forms(uf):
+    return ["function", "outer"] + (["operator"] if uf in OPER else [])
+
+
+def run_valaxis(unyt, rec, d, tier, r):
+    from vf.gen import c17_valueaxis as VA
+    thorough = tier == "thorough"
+    c = INTS.index(d)
+    for uf in VA_UFS + VA_DTYPE_ONLY:
+        for form in va_forms(uf):
+            for pos in VA.POSITIONS:
+                for sp in VA.SPELLINGS:
+                    if not VA.spelling_applies(sp, d):
+                        continue
+                    # the other operand's dtype, the unit pair and the other operand's spelling are enumerated by the running
+                    # group number (every combination comes round whatever the seed); thorough: two other dtypes per group
+                    # and the wider value-class list (about 3x the quick size)
+                    for d_other in [VA_OTHER_DT[(c + 5 * k) % len(VA_OTHER_DT)] for k in range(2 if thorough else 1)]:
+                        c += 1
+                        u0, u1 = BIN_UNITS[c % len(BIN_UNITS)]
+                        ospell = VA.OTHER_SPELLINGS[(c // len(BIN_UNITS)) % len(VA.OTHER_SPELLINGS)]
+                        va_group(unyt, rec, VA, uf, form, pos, sp, d, d_other, u0, u1, ospell, thorough, c, r)
+    rec.sample({"batch": "valaxis", "special dtype": d, "ufuncs": VA_UFS + VA_DTYPE_ONLY, "spellings": VA.SPELLINGS,
+                "positions": VA.POSITIONS, "value classes": [k for k, _ in VA.special_values(d, thorough)]})
+
+
+def va_group(unyt, rec, VA, ufname, form, pos, sp, d, d_other, u0, u1, ospell, thorough, c, r):
+    """one control call and every special value of one (ufunc, form, position, spelling, dtypes, units) combination"""
+    K = 16
+    uf = getattr(np, ufname)
+    s0, _ = X.unit_exact(u0)
+    s1, _ = X.unit_exact(u1)
+    sp2 = None
+    if pos == "both":
+        d0, d1 = d, (d_other if np.dtype(d_other).kind in "iu" else d)
+        ok_sp = [s for s in VA.SPELLINGS if VA.spelling_applies(s, d1)]
+        sp2 = ok_sp[c % len(ok_sp)]
+        cases = [(("control", "control"), VA.CONTROL[0], VA.CONTROL[1])]
+        cases += [((ca, cb), va, vb) for ((ca, va), (cb, vb)) in VA.value_pairs(d0, d1, thorough, c)]
+        spname = sp + "+" + sp2
+    else:
+        d0, d1 = (d, d_other) if pos == "first" else (d_other, d)
+        ov = VA.ordinary_values(d_other, r, VA_N)
+        cases = [(("control",), VA.CONTROL[0], None)] + [((k,), v, None) for k, v in VA.special_values(d, thorough)]
+        spname = sp
+    c0, c1 = cls_of(d0), cls_of(d1)
+    fname = f"{form}:{pos}:{spname}" + ("" if pos == "both" else ":other-" + ospell)
+    case = {"ufunc": ufname, "form": fname, "d0": d0, "d1": d1, "u0": u0, "u1": u1}
+    control_dt = None
+    for (classes, va, vb) in cases:
+        is_control = classes[0] == "control"
+        try:
+            if pos == "both":
+                a, sha, av = VA.spell(unyt, sp, d0, va, u0, VA_N)
+                b, shb, bv = VA.spell(unyt, sp2, d1, vb, u1, VA_N)
+            elif pos == "first":
+                a, sha, av = VA.spell(unyt, sp, d0, va, u0, VA_N)
+                b, shb, bv = VA.spell_other(unyt, ospell, d1, ov, u1)
+            else:
+                a, sha, av = VA.spell_other(unyt, ospell, d0, ov, u0)
+                b, shb, bv = VA.spell(unyt, sp, d1, va, u1, VA_N)
+        except Exception as e:                       # noqa: BLE001 - constructing the input is not the subject
+            rec.note(f"valaxis:build-failed:{spname}:{type(e).__name__}")
+            if is_control:
+                return
+            continue
+        if not same_dtype(a.dtype, d0) or not same_dtype(b.dtype, d1):
+            rec.note(f"valaxis:spelling-does-not-keep-dtype:{spname}")
+            if is_control:
+                return
+            continue
+        if form == "function":
+            fn = lambda: uf(a, b)
+        elif form == "operator":
+            fn = lambda: eval("a %s b" % OPER[ufname], {"a": a, "b": b})
+        else:
+            fn = lambda: uf.outer(a, b)
+        res, exc, ws = observe(fn)
+        rec.count("calls:valaxis")
+        rec.reach(f"valaxis:{ufname}:{form}")
+        vtag = "+".join(classes)
+        # structural tag of the keys: value class(es), spelling (both operands special: only scalar/array, the pair of exact
+        # spellings is in the description), position
+        tag = f"{vtag}-{spname}-{pos}" if pos != "both" else f"{vtag}-{'array' if sha else 'scalar'}+{'array' if shb else 'scalar'}-both"
+        what = f" [value axis: {vtag} as {spname}, {pos} operand" + ("s]" if pos == "both" else f", other operand {ospell}]")
+        shown = f"np.{ufname} ({form}) of {av[:2]} {u0} ({d0}, shape {sha}) and {bv[:2]} {u1} ({d1}, shape {shb})"
+        A = [(Fr(v) * s0, None) for v in av]
+        B = [(Fr(v) * s1, None) for v in bv]
+        idx = VA.index_map(sha, shb, form == "outer")
+        # what the interpreter really calls: for `a < b` with type(b) a proper subclass of type(a) (a quantity on the right of
+        # an array) Python tries the reflected method of the subclass first, i.e. np.greater(b, a) - there `a` is the operand
+        # that is rescaled.  Arithmetic operators keep the order (ndarray.__radd__(b, a) is np.add(a, b)).
+        J = (ufname, d0, d1, u0, u1, av, bv, A, B, s0, s1, idx)
+        if form == "operator" and ufname in COMPARE and type(b) is not type(a) and isinstance(b, type(a)):
+            J = (VA_REFLECTED[ufname], d1, d0, u1, u0, bv, av, B, A, s1, s0, [(j, i) for (i, j) in idx])
+            rec.count("valaxis:reflected-comparison-dispatch")
+        if is_control:
+            rec.count("evals:valaxis:control")
+            if exc is not None:
+                # value independent: the ordinary key of the binary matrix (same rule as do_binary)
+                if np.dtype(d1).kind in "iu" and np.dtype(d1).itemsize == 1:
+                    rec.violation(f"C17:binary/call:raises:second-operand-int8:{type(exc).__name__}", f"{shown} raised {type(exc).__name__}: "
+                                  f"{str(exc)[:120]}{what}", case)
+                else:
+                    rec.violation(f"C17:{ufname}/call:raises:{c0}+{c1}:{type(exc).__name__}", f"{shown} raised {type(exc).__name__}: "
+                                  f"{str(exc)[:120]}{what}", case)
+                rec.count("valaxis:control-refused")
+                return
+            cdt = np.asarray(res).dtype
+            label = str(res.units) if hasattr(res, "units") else ""
+            if ufname in VA_DTYPE_ONLY:
+                if cdt.kind != "f":
+                    rec.violation(f"C17:{ufname}/call:int-result:{c0}+{c1}", f"{shown} returned dtype {cdt}{what}", case)
+                    return
+                rec.ok(("valaxis-control", ufname, form, pos, spname, d0, d1))
+            else:
+                judge_binary(rec, J[0], fname, "call", *J[1:11], K, J[11], res, label, ws,
+                             ctr="evals:valaxis:control-judged", what=what)
+                if cdt.kind != ("b" if ufname in COMPARE else "f"):
+                    rec.count("valaxis:control-has-wrong-kind")          # reported by judge_binary under the ordinary key
+                    return
+            control_dt = cdt
+            continue
+        # ---- a special value: (c) no refusal where the control returned
+        for name in ["dtype"] + ["value:" + k for k in set(classes)] + ["spelling:" + s for s in {sp, sp2} if s] + ["position:" + pos, "form:" + form]:
+            rec.count("evals:valaxis:" + name)
+        if exc is not None:
+            rec.violation(f"C17:{ufname}/value-axis:raises:{tag}:{type(exc).__name__}", f"{shown} raised {type(exc).__name__}: {str(exc)[:120]}; "
+                          f"with the ordinary reading {VA.CONTROL[0]} in the same place the call returns {control_dt}{what}", case)
+            continue
+        rdt = np.asarray(res).dtype
+        label = str(res.units) if hasattr(res, "units") else ""
+        # ---- (a) kind, (b) the dtype of the control
+        if rdt.kind != control_dt.kind and rdt.kind in "iub":
+            rec.violation(f"C17:{ufname}/value-axis:int-result:{tag}", f"{shown} returned integer dtype {rdt}: {flat(res)[1][:4]} {label}; with the "
+                          f"ordinary reading {VA.CONTROL[0]} in the same place the result is {control_dt} - whether integer data in different "
+                          f"units combine to floating point depends on the VALUE{what}", case)
+            continue
+        if rdt != control_dt:
+            rec.violation(f"C17:{ufname}/value-axis:dtype-depends-on-value:{tag}", f"{shown} returned dtype {rdt}; with the ordinary reading "
+                          f"{VA.CONTROL[0]} in the same place the result is {control_dt}{what}", case)
+            continue
+        rec.ok(("valaxis-dtype", ufname, form, pos, spname, vtag, d0, d1))
+        # ---- (d) values (ordinary keys: a wrong number is the same defect whoever drives the call)
+        if ufname not in VA_DTYPE_ONLY:
+            judge_binary(rec, J[0], fname, "call", *J[1:11], K, J[11], res, label, ws,
+                         ctr="evals:valaxis:values", what=what)
+
+
 # ------------------------------------------------------------------ list coercion, setitem note
 def run_misc(unyt, rec, tier, r):
     K = 16
@@ -1815,6 +2002,13 @@ def extra(tier, seed, results):
     deciding += ["evals:outbuf:pass:" + k for k in OUT_PASS] + ["evals:outbuf:variant:" + k for k in sorted(set(OUT_VARIANTS))]
     deciding += ["evals:outbuf:width:%d" % w for w in (16, 32, 64, 128)]
     deciding += ["evals:rareform:where-noout", "evals:rareform:where-noout:call", "evals:rareform:at"]
+    # value axis of integer operands: the dtype-against-control monitor and the value monitor must have judged every value
+    # class, operand spelling, operand position and call form
+    from vf.gen import c17_valueaxis as VA
+    deciding += ["evals:valaxis:control", "evals:valaxis:control-judged", "evals:valaxis:dtype", "evals:valaxis:values", "evals:valaxis:values:call"]
+    deciding += ["evals:valaxis:value:" + k for k in VA.VCLASSES_QUICK + (VA.VCLASSES_MORE if tier == "thorough" else ())]
+    deciding += ["evals:valaxis:spelling:" + k for k in VA.SPELLINGS] + ["evals:valaxis:position:" + k for k in VA.POSITIONS]
+    deciding += ["evals:valaxis:form:" + k for k in VA.FORMS]
     first_routes = HIST_FIRST_QUICK + (HIST_FIRST_MORE if tier == "thorough" else [])
     zero = [k for k in deciding if not counters.get(k)]
     zero += ["hist-first:" + fr for fr in first_routes if "hist-first:" + fr not in reached]
@@ -1826,9 +2020,11 @@ def extra(tier, seed, results):
     want_uf = [f"ufunc:{u}:ufunc" for u in ufs]
     unreached = [x for x in want_routes + want_uf + ["ctor-list"] if x not in reached]
     unreached += ["hist:ufunc:%s:ufunc" % u for u in HIST_UFS if "hist:ufunc:%s:ufunc" % u not in reached]
+    unreached += [f"valaxis:{u}:{f}" for u in VA_UFS + VA_DTYPE_ONLY for f in va_forms(u) if f"valaxis:{u}:{f}" not in reached]
     unreached += [f"outbuf:{u}:{v}:{h}" for u in OUT_UFS for v in sorted(set(OUT_VARIANTS)) for h in OUT_HOLDERS
                   if not any(f"outbuf:{u}:{v}:{p}:{h}" in reached for p in OUT_PASS)]
     return {"sub_monitor_evaluations": {k: counters.get(k, 0) for k in deciding},
+            "valaxis": {k: v for k, v in counters.items() if k.startswith("valaxis:") or k.startswith("evals:valaxis") or k == "calls:valaxis"},
             "outbuf": {k: v for k, v in counters.items() if k.startswith("outbuf:") or k.startswith("evals:rareform") or k == "calls:outbuf"},
             "history_control": {k[5:]: v for k, v in counters.items() if k.startswith("hist:control") or k.startswith("hist:violations")},
             "entry_point_calls": {k[4:]: v for k, v in counters.items() if k.startswith("tap:")},
